@@ -273,6 +273,7 @@ class FieldMappingTransformationBase(DetectionItemTransformation):
         self, detection_item: SigmaDetectionItem
     ) -> (SigmaDetection | SigmaDetectionItem) | None:
         """Apply field name transformations to field references in detection item values."""
+        value_before = detection_item.value
         new_values: list[SigmaType] = []
         fieldref_match = False
         for value in detection_item.value:
@@ -315,13 +316,23 @@ class FieldMappingTransformationBase(DetectionItemTransformation):
                 self.processing_item_applied(detection_item)
                 result = detection_item
             else:
-                result = SigmaDetection(
-                    [
-                        dataclasses.replace(detection_item, field=field, auto_modifiers=False)
-                        for field in mapping
-                    ],
-                    item_linking=ConditionOR,
-                )
+                mapped_items = [
+                    dataclasses.replace(detection_item, field=field, auto_modifiers=False)
+                    for field in mapping
+                ]
+                # The copies are initialized with the already modified values as original values,
+                # which would apply the modifiers a second time when the rule is serialized and
+                # parsed again. Hand over the original values of the mapped detection item or
+                # disable serialization if the values were changed above.
+                for mapped_item in mapped_items:
+                    if (
+                        detection_item.value is value_before
+                        and detection_item.original_value is not None
+                    ):
+                        mapped_item.original_value = detection_item.original_value.copy()
+                    else:
+                        mapped_item.disable_conversion_to_plain()
+                result = SigmaDetection(mapped_items, item_linking=ConditionOR)
         if field_match or fieldref_match:  # field name was changed or field reference was mapped
             if self._pipeline is not None and mapping is not None:
                 self._pipeline.field_mappings.add_mapping(field, mapping)
